@@ -1,6 +1,10 @@
 (* C05 — Encoded output carries the same value: decoding what the encoder wrote returns the value
    (model-level round trip), for every well-formed value, up to what name compression may change
    (ASCII case of labels reached through a pointer; order of the SVCB `mandatory` key list). *)
+From DNS Require Import Model.Dec Model.Enc Spec.Names Spec.Wire Spec.Render
+  Proofs.NameLayer Proofs.SvcbRound
+  Proofs.RtPrim Proofs.RtRecord Proofs.RtMsg Proofs.C05
+  Proofs.EncRenderBase Proofs.EncRenderFields Proofs.EncRenderMsg Proofs.EncRenderSpecial Proofs.EncRenderTop.
 From DNS Require Import Model.Dec Model.Enc Spec.Names Spec.USize
   Proofs.NameLayer Proofs.DecBase
   Proofs.RtPrim Proofs.RtFields Proofs.RtRecord Proofs.RtSpecial Proofs.RtApl Proofs.RtMsg
@@ -454,3 +458,142 @@ Definition m_many : dns :=
 Example C05succ_example_compression_rescues :
   dns_wf m_many = true /\ usize_dns m_many = 80112 /\ exists b, enc_Dns m_many = Ok b /\ lenN b = 5063.
 Proof. split; [vm_compute; reflexivity|]. split; [vm_compute; reflexivity|]. eexists. split; vm_compute; reflexivity. Qed.
+
+(* ------------------------------------------------------------------------------------------
+   render: the encoder's output is one of the legal renderings (Spec/Render.v) of the message *)
+(* C05 (renderings) — Encoded output is a well-formed DNS message carrying the same value:
+   the encoder's output is one of the LEGAL WIRE RENDERINGS of the message, in the sense of the
+   declarative specification Spec/Render.v (written from the RFCs; it mentions neither the encoder model
+   nor any decoder).  Together with C04 (every legal rendering of a well-formed message is accepted by
+   the reference decoder and by the decoder model with an equivalent value) this gives a second,
+   independent route to "the reference reads back what the encoder wrote". *)
+
+
+(* Vocabulary.
+   renders_dns m b   Spec/Render.v: b is a legal rendering of m: the header of m, then renderings of the
+                     questions and of the three record sections, each element behind everything before it.
+                     Names: every label in any ASCII case, cut off at any label boundary by a pointer to an
+                     earlier occurrence (within 16 hops) of the remaining labels; address prefixes with any
+                     number of trailing zero octets left out; SvcParams in any order.
+   dns_wf, rr_wf, plain_wf, name_wf   the boolean well-formedness predicates of Props/C05.v.
+   norm_dns m        m with the key list of every `mandatory` SvcParam sorted ascending (sort_keys, the
+                     model of the encoder's sort_unstable); nothing else is changed: in particular labels
+                     keep their case — the encoder writes labels as they are.
+   InvM st mask      the invariant of the encoder state (Proofs/NameLayer.v); mask marks the octets of names.
+   agree mask b pre  pre is at least as long as b and equal to b at every masked position. *)
+
+(* ---- what is normalised ---- *)
+Theorem C05_norm_dns_def : forall m : dns,
+  norm_dns m = {| m_id := m_id m; m_flags := m_flags m; m_qd := m_qd m;
+                  m_an := map norm_rr (m_an m); m_ns := map norm_rr (m_ns m); m_ar := map norm_rr (m_ar m) |}.
+Proof. exact norm_dns_spec. Qed.
+Print Assumptions C05_norm_dns_def.
+
+Theorem C05_norm_rr_def : forall r : rr,
+  norm_rr r = {| r_type := r_type r; r_name := r_name r; r_class := r_class r; r_ttl := r_ttl r;
+                 r_data := match r_data r with
+                           | RSvcb prio target ps => RSvcb prio target (map norm ps)
+                           | _ => r_data r
+                           end |}.
+Proof. exact norm_rr_spec. Qed.
+Print Assumptions C05_norm_rr_def.
+
+Theorem C05_norm_param_def : forall p : svcparam,
+  norm p = match p with PMandatory keys => PMandatory (sort_keys keys) | _ => p end.
+Proof. exact norm_param_spec. Qed.
+Print Assumptions C05_norm_param_def.
+
+(* a message of plain records (no OPT, APL, SVCB, HTTPS) is its own normal form *)
+Theorem C05_norm_dns_plain : forall m : dns, dns_wf_plain m = true -> norm_dns m = m.
+Proof. exact norm_dns_plain. Qed.
+Print Assumptions C05_norm_dns_plain.
+
+(* the normal form is well formed and equivalent to the message *)
+Theorem C05_norm_dns_wf : forall m : dns, dns_wf m = true -> dns_wf (norm_dns m) = true.
+Proof. exact norm_dns_wf. Qed.
+Print Assumptions C05_norm_dns_wf.
+
+Theorem C05_norm_dns_eqv : forall m : dns, dns_eqv (norm_dns m) m.
+Proof. exact norm_dns_eqv. Qed.
+Print Assumptions C05_norm_dns_eqv.
+
+(* ---- the theorem: the output is a legal rendering ---- *)
+Theorem C05_output_is_legal_rendering : forall (m : dns) (b : bytes),
+  dns_wf m = true -> enc_Dns m = Ok b -> renders_dns (norm_dns m) b.
+Proof. exact output_is_legal_rendering. Qed.
+Print Assumptions C05_output_is_legal_rendering.
+
+(* messages of plain records: of the message itself *)
+Theorem C05_output_is_legal_rendering_plain : forall (m : dns) (b : bytes),
+  dns_wf_plain m = true -> enc_Dns m = Ok b -> renders_dns m b.
+Proof. exact output_renders_plain. Qed.
+Print Assumptions C05_output_is_legal_rendering_plain.
+
+(* ---- element level: from any encoder state with the invariant ----
+   The judgment holds behind EVERY prefix that agrees with the buffer on the octets of names: this is how
+   a judgment made while an RDLENGTH slot still holds 0 0 is read against the final message. *)
+Theorem C05_name_is_legal_rendering : forall (n : name) (st : est) (mask : list bool) (st' : est),
+  name_wf n = true -> InvM st mask -> enc_domain_name n st = EOk tt st' ->
+  exists w : bytes, e_buf st' = e_buf st ++ w /\
+    forall pre : bytes, length pre = length (e_buf st) -> agree mask (e_buf st) pre -> renders_name pre n w.
+Proof. exact name_renders_wf. Qed.
+Print Assumptions C05_name_is_legal_rendering.
+
+Theorem C05_rr_is_legal_rendering : forall (r : rr) (st : est) (mask : list bool) (st' : est),
+  rr_wf r = true -> InvM st mask -> enc_rr r st = EOk tt st' ->
+  exists w : bytes, e_buf st' = e_buf st ++ w /\
+    forall pre : bytes, length pre = length (e_buf st) -> agree mask (e_buf st) pre ->
+      renders_rr pre (norm_rr r) w.
+Proof. exact rr_renders. Qed.
+Print Assumptions C05_rr_is_legal_rendering.
+
+(* what an SvcParam is written as: the rendering of its normal form *)
+Theorem C05_param_wire_norm : forall p : svcparam,
+  RtSpecial.param_wfb p = true -> SvcbEnc.param_fits p ->
+  SvcbEnc.param_wire p = Spec.Render.param_wire (norm p).
+Proof. exact param_wire_norm. Qed.
+Print Assumptions C05_param_wire_norm.
+
+(* ---- second route to the reference round trip: this theorem + C04_render_accepted ---- *)
+Theorem C05_reference_reads_back_via_render : forall (m : dns) (b : bytes),
+  dns_wf m = true -> enc_Dns m = Ok b -> exists m', spec_Dns b = Some m' /\ dns_eqv m' m.
+Proof. exact reference_reads_back_via_render. Qed.
+Print Assumptions C05_reference_reads_back_via_render.
+
+(* ---- example (non-vacuity) ----
+   a question for example.org, an MX record whose owner and exchange are compressed against it, and an
+   HTTPS record whose `mandatory` list [4; 1] is written as [1; 4] *)
+Definition exr_example : label := [101;120;97;109;112;108;101].
+Definition exr_org : label := [111;114;103].
+Definition exr_www : label := [119;119;119].
+Definition exr_mail : label := [109;97;105;108].
+Definition exr_msg : dns :=
+  {| m_id := 4660;
+     m_flags := {| f_qr := true; f_opcode := 0; f_aa := true; f_tc := false; f_rd := true; f_ra := true;
+                   f_ad := false; f_cd := false; f_rcode := 0 |};
+     m_qd := [ {| q_name := [exr_example; exr_org]; q_type := 15; q_class := 1 |} ];
+     m_an := [ {| r_type := 15; r_name := [exr_www; exr_example; exr_org]; r_class := 1; r_ttl := 60;
+                  r_data := RFields [VN 10; VName [exr_mail; exr_example; exr_org]] |};
+               {| r_type := 65; r_name := [exr_example; exr_org]; r_class := 1; r_ttl := 60;
+                  r_data := RSvcb 1 [exr_www; exr_example; exr_org]
+                              [PMandatory [4; 1]; PAlpn [[104; 50]]; PIpv4Hint [3221225985]] |} ];
+     m_ns := []; m_ar := [] |}.
+Definition exr_bytes : bytes :=
+  [18;52; 133;128; 0;1; 0;2; 0;0; 0;0;
+   7;101;120;97;109;112;108;101; 3;111;114;103; 0; 0;15; 0;1;
+   3;119;119;119; 192;12; 0;15; 0;1; 0;0;0;60; 0;9; 0;10; 4;109;97;105;108; 192;12;
+   192;12; 0;65; 0;1; 0;0;0;60; 0;27; 0;1; 192;29;
+   0;0; 0;4; 0;1; 0;4;
+   0;1; 0;3; 2;104;50;
+   0;4; 0;4; 192;0;2;1].
+
+Example C05_render_example :
+  dns_wf exr_msg = true /\ enc_Dns exr_msg = Ok exr_bytes /\
+  renders_dns (norm_dns exr_msg) exr_bytes /\
+  map r_data (m_an (norm_dns exr_msg)) =
+    [RFields [VN 10; VName [exr_mail; exr_example; exr_org]];
+     RSvcb 1 [exr_www; exr_example; exr_org] [PMandatory [1; 4]; PAlpn [[104; 50]]; PIpv4Hint [3221225985]]].
+Proof.
+  split; [vm_compute; reflexivity|]. split; [vm_compute; reflexivity|].
+  split; [apply C05_output_is_legal_rendering; vm_compute; reflexivity|vm_compute; reflexivity].
+Qed.
